@@ -49,6 +49,7 @@ type lcSpec struct {
 	noHeartbeat bool
 	genStart    uint32
 	numTokens   int           // 0 = the default (numTokens)
+	startAt     time.Duration // the process is started this long after the scenario begins (0 = at once)
 	finalSleep  time.Duration // full lifecycler: how long it stays LEAVING (heartbeating) before it is gone
 }
 
@@ -319,6 +320,7 @@ func runC08(t *testing.T, sc scenario, ch *sched.Chooser) (res sched.Result) {
 		e.ClockOn = func() bool { return elapsed() < horizon }
 		// regularity bookkeeping
 		slow := map[string]bool{}
+		readyLatched := map[string]bool{}   // lifecyclers whose readiness probe has passed once (it then keeps passing: documented latch)
 		startedAt := map[string]time.Time{} // when each lifecycler was actually started (the schedule may delay it)
 		stopAsked := map[string]bool{}
 		var viol, key string
@@ -375,6 +377,9 @@ func runC08(t *testing.T, sc scenario, ch *sched.Chooser) (res sched.Result) {
 		for _, sp := range sc.lcs {
 			in := insts[sp.id]
 			e.Go("s-start:"+sp.id, func() {
+				if sp.startAt > 0 {
+					sched.YieldUntil("at", func() bool { return elapsed() >= sp.startAt })
+				}
 				startedAt[sp.id] = time.Now()
 				if err := in.svc.StartAsync(context.Background()); err != nil {
 					sched.Obs("start-error " + sp.id + " " + err.Error())
@@ -401,7 +406,10 @@ func runC08(t *testing.T, sc scenario, ch *sched.Chooser) (res sched.Result) {
 					err := in.checkReady(context.Background())
 					cur := descOf(st.Peek(ringKey))
 					ent, ok := cur.Ingesters[a.who]
-					if err == nil {
+					if err == nil && readyLatched[a.who] {
+						// documented latch: once the check has passed it keeps passing
+					} else if err == nil {
+						readyLatched[a.who] = true
 						switch {
 						case !ok || ent.State != ring.ACTIVE || len(ent.Tokens) == 0:
 							sched.Obs(fmt.Sprintf("READY-VIOLATION %s reported ready at +%v but its ring entry is %s", a.who, elapsed(), show(ent, ok)))
@@ -547,6 +555,8 @@ func scenariosC08() []scenario {
 		// external state-change requests (Lifecycler.ChangeState) in every state: granted along the documented edges only
 		{name: "full-change-state-pending", lcs: []lcSpec{{id: "a", joinAfter: 4250 * time.Millisecond, heartbeat: 3 * time.Second}}, actions: []action{{at: 500 * time.Millisecond, kind: "change-state", who: "a", arg: "LEAVING"}, {at: 1 * time.Second, kind: "change-state", who: "a", arg: "JOINING"}, {at: 1500 * time.Millisecond, kind: "change-state", who: "a", arg: "LEAVING"}, {at: 2 * time.Second, kind: "change-state", who: "a", arg: "PENDING"}}, horizon: 9 * time.Second},
 		{name: "full-change-state-active", lcs: []lcSpec{{id: "a", heartbeat: 3 * time.Second}}, actions: []action{{at: 1 * time.Second, kind: "change-state", who: "a", arg: "PENDING"}, {at: 1500 * time.Millisecond, kind: "change-state", who: "a", arg: "JOINING"}, {at: 2 * time.Second, kind: "change-state", who: "a", arg: "LEAVING"}, {at: 2500 * time.Millisecond, kind: "change-state", who: "a", arg: "ACTIVE"}, {at: 4 * time.Second, kind: "change-state", who: "a", arg: "PENDING"}}, horizon: 8 * time.Second},
+		// readiness with ring-health: a member that shows up (PENDING, then JOINING) after the probed lifecycler's last own write
+		{name: "ready-vs-late-joiner", lcs: []lcSpec{{id: "a", ringHealth: true}, {id: "b", startAt: 2 * time.Second, joinAfter: 1500 * time.Millisecond, observe: 2 * time.Second}}, actions: []action{{at: 2500 * time.Millisecond, kind: "ready", who: "a"}, {at: 4 * time.Second, kind: "ready", who: "a"}, {at: 7 * time.Second, kind: "ready", who: "a"}}, horizon: 9 * time.Second},
 		{name: "mixed", lcs: []lcSpec{{id: "a", joinAfter: 1500 * time.Millisecond}, {id: "b", basic: true}}, horizon: 14 * time.Second},
 		{name: "three-joiners", lcs: []lcSpec{{id: "a", joinAfter: 1500 * time.Millisecond}, {id: "b", joinAfter: 1500 * time.Millisecond}, {id: "c", basic: true}}, horizon: 9 * time.Second},
 		{name: "no-heartbeat", lcs: []lcSpec{{id: "a", joinAfter: 1500 * time.Millisecond}, {id: "b", basic: true, noHeartbeat: true}}, actions: []action{{at: 6 * time.Second, kind: "stop", who: "b"}}, horizon: 12 * time.Second},
